@@ -9,6 +9,7 @@ mod c02;
 mod c06;
 mod c08;
 mod c09;
+mod c10;
 mod expect;
 mod sgen;
 mod model;
@@ -70,6 +71,7 @@ fn run(id: &str, tier: Tier) -> i32 {
         "C06" => c06::run(tier),
         "C08" => c08::run(tier),
         "C09" => c09::run(tier),
+        "C10" => c10::run(tier),
         "C11" => c11::run(tier),
         "C12" => c12::run(tier),
         "C13" => c13::run(tier),
@@ -93,6 +95,7 @@ fn replay(file: &str) -> i32 {
         "C06" => c06::replay(&v["case"]),
         "C08" => c08::replay(&v["case"]),
         "C09" => c09::replay(&v["case"]),
+        "C10" => c10::replay(&v["case"]),
         "C11" => c11::replay(&v["case"]),
         "C12" => c12::replay(&v["case"]),
         "C13" => c13::replay(&v["case"]),
